@@ -1146,3 +1146,51 @@ fn num_expt_rational_i_body() {
     core::mem::forget(r);
     core::mem::forget(base);
 }
+
+// ------------------------------------------------------------------ ordering of a double against a big integer: total
+// `BigDecimal::from_f64` is partial (None for NaN and the infinities).  The comparison of ANY double with a big integer
+// (and with a big rational) must answer Some / None and never panic.  bigdecimal's conversion and comparison are not
+// executed: the conversion is modelled by its partiality alone (None exactly for the non-finite doubles; a finite double
+// becomes the decimal 0), so the ORDER answered for finite doubles is not checked here, only totality.
+fn bigdecimal_from_f64_stub(n: f64) -> Option<bigdecimal::BigDecimal> {
+    if n.is_finite() {
+        Some(bigdecimal::BigDecimal::new(BigInt::from(0), 0))
+    } else {
+        None
+    }
+}
+fn bigdecimal_partial_cmp_stub(_a: &bigdecimal::BigDecimal, _b: &bigdecimal::BigDecimal) -> Option<core::cmp::Ordering> {
+    let k: u8 = kani::any();
+    match k % 4 {
+        0 => Some(Ord3::Less),
+        1 => Some(Ord3::Equal),
+        2 => Some(Ord3::Greater),
+        _ => None,
+    }
+}
+#[kani::proof]
+#[kani::unwind(8)]
+#[kani::stub(std::rt::thread_cleanup, noop)]
+#[kani::stub(alloc::fmt::format, fmt_stub)]
+#[kani::stub(core::arch::x86_64::_addcarry_u64, addcarry_stub)]
+#[kani::stub(core::arch::x86_64::_subborrow_u64, subborrow_stub)]
+#[kani::stub(<bigdecimal::BigDecimal as num_traits::FromPrimitive>::from_f64, bigdecimal_from_f64_stub)]
+fn num_cmp_float_big_total() {
+    tag_init();
+    let f: f64 = kani::any();
+    let off: u16 = kani::any();
+    let neg: bool = kani::any();
+    let d: i128 = if neg { -((1i128 << 63) + 1 + off as i128) } else { (1i128 << 63) + off as i128 };
+    let a = NumV(f);
+    let b = big(d);
+    kani::cover!(f.is_nan(), "not a number");
+    kani::cover!(f.is_infinite() && f > 0.0, "positive infinity");
+    kani::cover!(f.is_finite(), "finite");
+    let r1 = a.partial_cmp(&b);
+    let r2 = b.partial_cmp(&a);
+    if f.is_nan() {
+        vassert!(r1.is_none() && r2.is_none(), "a big integer is ordered against not-a-number");
+    }
+    core::mem::forget(a);
+    core::mem::forget(b);
+}
